@@ -153,7 +153,21 @@ def cleanup_network(network: BooleanNetwork) -> BooleanNetwork:
             f"Parametrized networks are not supported. Found implicit parameters: {names}."
         )
 
-    return network.infer_valid_graph()
+    network = network.infer_valid_graph()
+
+    # A free input (no regulators, no update function) keeps its value: the Petri net
+    # has no transition for it. In the symbolic graph (`AsynchronousGraph`), however,
+    # a missing update function is an unknown *constant*, which means that the variable
+    # could change its value. Free inputs are given the identity function explicitly,
+    # such that both representations describe the same dynamics.
+    for var in network.implicit_parameters():
+        name = network.get_variable_name(var)
+        network.ensure_regulation(
+            {"source": name, "target": name, "essential": True, "sign": "+"}
+        )
+        network.set_update_function(var, name)
+
+    return network
 
 
 def source_SCCs(bn: BooleanNetwork) -> list[list[str]]:
